@@ -55,26 +55,26 @@ theorem seg_generateSegmentNonce_eq (size : Nat) (pre : Bytes) (i : Nat) (last :
   · simp [hi]
   · simp only [hi, ↓reduceIte]
     congr 1
-    have hoff : NoncebasedSeg.generateSegmentNonce.offset_2 (size : Int) pre i last = ((pre.length + 4 : Nat) : Int) := by
-      simp only [NoncebasedSeg.generateSegmentNonce.offset_2, NoncebasedSeg.generateSegmentNonce.offset, len_eq]
+    have hoff : NoncebasedSeg.generateSegmentNonce.v5 (size : Int) pre i last = ((pre.length + 4 : Nat) : Int) := by
+      simp only [NoncebasedSeg.generateSegmentNonce.v5, NoncebasedSeg.generateSegmentNonce.v3, len_eq]
       rw [i64_eq (by omega) (by omega)]; omega
-    have h2 : NoncebasedSeg.generateSegmentNonce.nonce_2 (size : Int) pre i last = pre ++ Bytes.zeros (size - pre.length) := by
-      simp only [NoncebasedSeg.generateSegmentNonce.nonce_2, NoncebasedSeg.generateSegmentNonce.nonce, makeBytes_natCast]
+    have h2 : NoncebasedSeg.generateSegmentNonce.v2 (size : Int) pre i last = pre ++ Bytes.zeros (size - pre.length) := by
+      simp only [NoncebasedSeg.generateSegmentNonce.v2, NoncebasedSeg.generateSegmentNonce.v1, makeBytes_natCast]
       have := copyInto_append [] (Bytes.zeros size) pre 0 (len (Bytes.zeros size)) (by simp) (by simp)
       simp only [List.nil_append] at this
       rw [this]; simp [List.take_of_length_le (show pre.length ≤ size by omega)]
     have him : i % 4294967296 = i := Nat.mod_eq_of_lt (by omega)
-    have h3 : NoncebasedSeg.generateSegmentNonce.nonce_3 (size : Int) pre i last
+    have h3 : NoncebasedSeg.generateSegmentNonce.v4 (size : Int) pre i last
         = (pre ++ Bytes.be32 i) ++ Bytes.zeros (size - pre.length - 4) := by
-      simp only [NoncebasedSeg.generateSegmentNonce.nonce_3, NoncebasedSeg.generateSegmentNonce.offset, h2, him]
+      simp only [NoncebasedSeg.generateSegmentNonce.v4, NoncebasedSeg.generateSegmentNonce.v3, h2, him]
       rw [putBE_append 4 pre _ _ _ i (by simp) (by simp; omega) (by simp)]
       simp [Bytes.be32]
-    have h4 : NoncebasedSeg.generateSegmentNonce.nonce_4 (size : Int) pre i last
+    have h4 : NoncebasedSeg.generateSegmentNonce.v6 (size : Int) pre i last
         = (pre ++ Bytes.be32 i) ++ 1 :: Bytes.zeros (size - pre.length - 5) := by
-      simp only [NoncebasedSeg.generateSegmentNonce.nonce_4, hoff, h3]
+      simp only [NoncebasedSeg.generateSegmentNonce.v6, hoff, h3]
       rw [setAt_append _ _ _ _ (by simp [Bytes.be32]) (by simp; omega)]
       simp only [drop_zeros, Nat.sub_sub]
-    simp only [NoncebasedSeg.generateSegmentNonce.nonce_5, h3, h4]
+    simp only [NoncebasedSeg.generateSegmentNonce.v7, h3, h4]
     clear hoff h2 h3 h4
     cases last <;> simp [Bytes.be32]
     · have e : size - pre.length - 4 = (size - (pre.length + 5)) + 1 := by omega
@@ -147,36 +147,36 @@ theorem seg_Close_eq (C : Stream.Cipher) (f : Stream.Fault)
     subst hcl'
     simp only [Bool.false_eq_true, ↓reduceIte]
     by_cases hi : cnt ≥ 4294967295
-    · have hn : NoncebasedSeg.Close.opt_generateSegmentNonce (List Bytes × Nat) (mSink f) encDst enc false
+    · have hn : NoncebasedSeg.Close.v1 (List Bytes × Nat) (mSink f) encDst enc false
           (nonceSize : Int) pre cnt useDst ct pt (pos : Int) (l, calls) = none := by
-        simp only [NoncebasedSeg.Close.opt_generateSegmentNonce]
+        simp only [NoncebasedSeg.Close.v1]
         exact seg_generateSegmentNonce_limit _ _ _ _ hi
-      simp [NoncebasedSeg.Close.err, hn, Stream.close, Stream.flush, Stream.flushFailState, wAbs, closeCt, wCode, hi, hlen]
+      simp [NoncebasedSeg.Close.v3, hn, Stream.close, Stream.flush, Stream.flushFailState, wAbs, closeCt, wCode, hi, hlen]
     · obtain ⟨nonce, hnonce⟩ := segmentNonce_some nonceSize pre cnt true (by omega)
-      have hn : NoncebasedSeg.Close.opt_generateSegmentNonce (List Bytes × Nat) (mSink f) encDst enc false
+      have hn : NoncebasedSeg.Close.v1 (List Bytes × Nat) (mSink f) encDst enc false
           (nonceSize : Int) pre cnt useDst ct pt (pos : Int) (l, calls) = some nonce := by
-        simp only [NoncebasedSeg.Close.opt_generateSegmentNonce]
+        simp only [NoncebasedSeg.Close.v1]
         rw [seg_generateSegmentNonce_eq _ _ _ _ hsize hmax, hnonce]
       have hsl : slice pt 0 (pos : Int) = pt.take pos := slice_prefix pt pos hpos
-      have hct3 : NoncebasedSeg.Close.w_ciphertext_3 (List Bytes × Nat) (mSink f) encDst enc false
+      have hct3 : NoncebasedSeg.Close.v10 (List Bytes × Nat) (mSink f) encDst enc false
           (nonceSize : Int) pre cnt useDst ct pt (pos : Int) (l, calls) = C.enc cnt true (pt.take pos) := by
-        simp only [NoncebasedSeg.Close.w_ciphertext_3, NoncebasedSeg.Close.w_ciphertext, NoncebasedSeg.Close.w_ciphertext_2,
-          NoncebasedSeg.Close.res_EncryptSegmentWithDst, NoncebasedSeg.Close.res_EncryptSegment, NoncebasedSeg.Close.nonce,
+        simp only [NoncebasedSeg.Close.v10, NoncebasedSeg.Close.v5, NoncebasedSeg.Close.v8,
+          NoncebasedSeg.Close.v4, NoncebasedSeg.Close.v7, NoncebasedSeg.Close.v2,
           hn, Option.getD_some, hsl, hC.enc _ _ _ _ hnonce, hC.encDst _ _ _ _ _ hnonce]
         cases useDst <;> simp
-      have herr4 : NoncebasedSeg.Close.err_4 (List Bytes × Nat) (mSink f) encDst enc false
+      have herr4 : NoncebasedSeg.Close.v11 (List Bytes × Nat) (mSink f) encDst enc false
           (nonceSize : Int) pre cnt useDst ct pt (pos : Int) (l, calls) = 0 := by
-        simp only [NoncebasedSeg.Close.err_4, NoncebasedSeg.Close.err_2, NoncebasedSeg.Close.err_3,
-          NoncebasedSeg.Close.res_EncryptSegmentWithDst, NoncebasedSeg.Close.res_EncryptSegment, NoncebasedSeg.Close.nonce,
+        simp only [NoncebasedSeg.Close.v11, NoncebasedSeg.Close.v6, NoncebasedSeg.Close.v9,
+          NoncebasedSeg.Close.v4, NoncebasedSeg.Close.v7, NoncebasedSeg.Close.v2,
           hn, Option.getD_some, hsl, hC.enc _ _ _ _ hnonce, hC.encDst _ _ _ _ _ hnonce]
         cases useDst <;> simp
-      have herr : NoncebasedSeg.Close.err (List Bytes × Nat) (mSink f) encDst enc false
+      have herr : NoncebasedSeg.Close.v3 (List Bytes × Nat) (mSink f) encDst enc false
           (nonceSize : Int) pre cnt useDst ct pt (pos : Int) (l, calls) = 0 := by
-        simp [NoncebasedSeg.Close.err, hn]
+        simp [NoncebasedSeg.Close.v3, hn]
       have hcw : (cnt + 1) % 18446744073709551616 = cnt + 1 := Nat.mod_eq_of_lt (by omega)
-      simp only [herr, herr4, ne_eq, not_true_eq_false, ↓reduceIte, NoncebasedSeg.Close.err_5, NoncebasedSeg.Close.w_w,
-        NoncebasedSeg.Close.ext_sink, hct3, NoncebasedSeg.Close.w_closed, NoncebasedSeg.Close.w_encryptedSegmentCnt,
-        NoncebasedSeg.Close.w_plaintextPos, hcw, mSink]
+      simp only [herr, herr4, ne_eq, not_true_eq_false, ↓reduceIte, NoncebasedSeg.Close.v13, NoncebasedSeg.Close.v14,
+        NoncebasedSeg.Close.v12, hct3, NoncebasedSeg.Close.v17, NoncebasedSeg.Close.v16,
+        NoncebasedSeg.Close.v15, hcw, mSink]
       by_cases hf : Stream.sinkFails f calls = true
       · simp [hf, Stream.close, Stream.flush, Stream.flushFailState, wAbs, closeCt, wCode, hi, hlen]
       · simp [hf, Stream.close, Stream.flush, wAbs, closeCt, wCode, hi]
@@ -315,15 +315,15 @@ theorem seg_Read_buffered (spt : Bytes) (carry : Option UInt8)
   have hsl : slice pt (ppos : Int) (pt.length : Int) = spt := by
     have := slice_suffix pt ppos h1
     rw [len_eq] at this; rw [this, h2]
-  have hn : (R! NoncebasedSeg.Read.n) = (((spt.take p.length).length : Nat) : Int) := by
-    simp only [NoncebasedSeg.Read.n, len_eq, hsl]; exact min_len_cast p spt
+  have hn : (R! NoncebasedSeg.Read.v2) = (((spt.take p.length).length : Nat) : Int) := by
+    simp only [NoncebasedSeg.Read.v2, len_eq, hsl]; exact min_len_cast p spt
   have hsptlen : spt.length = pt.length - ppos := by rw [← h2, List.length_drop]
-  have hpp : (R! NoncebasedSeg.Read.r_plaintextPos) = ((ppos + (spt.take p.length).length : Nat) : Int) := by
-    simp only [NoncebasedSeg.Read.r_plaintextPos, hn]
+  have hpp : (R! NoncebasedSeg.Read.v3) = ((ppos + (spt.take p.length).length : Nat) : Int) := by
+    simp only [NoncebasedSeg.Read.v3, hn]
     have : (spt.take p.length).length ≤ spt.length := by rw [List.length_take]; omega
     rw [i64_eq (by omega) (by omega)]; omega
-  have hp : (R! NoncebasedSeg.Read.p) = spt.take p.length ++ p.drop (spt.take p.length).length := by
-    simp only [NoncebasedSeg.Read.p, len_eq, hsl]; exact copy_out p spt
+  have hp : (R! NoncebasedSeg.Read.v1) = spt.take p.length ++ p.drop (spt.take p.length).length := by
+    simp only [NoncebasedSeg.Read.v1, len_eq, hsl]; exact copy_out p spt
   have hcond : (ppos : Int) < len pt := by simp only [len_eq]; omega
   unfold ReadTied
   refine ⟨ppos + (spt.take p.length).length, pt, ct, cpos, spt.take p.length ++ p.drop (spt.take p.length).length,
@@ -364,12 +364,12 @@ theorem rd_tail (last ld' : Bool) (segN : Nat) (ct1 src' : Bytes)
     (hD : DecOK nonceSize pre C dec decDst)
     (hsize : pre.length + 5 ≤ nonceSize) (hmax : nonceSize < 9223372036854775808)
     (hnb : ¬ ((ppos : Int) < len pt))
-    (herr : ¬ ((((R0! NoncebasedSeg.Read.err) ≠ 0) ∧ ((R0! NoncebasedSeg.Read.err) ≠ 3)) ∧ ((R0! NoncebasedSeg.Read.err) ≠ 2)))
-    (hseg : (R0! NoncebasedSeg.Read.segment_4) = (segN : Int))
-    (hlast : (R0! NoncebasedSeg.Read.lastSegment_3) = last)
-    (hldd : (R0! NoncebasedSeg.Read.r_lastSegmentDecrypted_2) = ld')
-    (hct1 : (R0! NoncebasedSeg.Read.r_ciphertext) = ct1) (hsegle : segN ≤ ct1.length)
-    (hrr : (R0! NoncebasedSeg.Read.r_r) = src') :
+    (herr : ¬ ((((R0! NoncebasedSeg.Read.v12) ≠ 0) ∧ ((R0! NoncebasedSeg.Read.v12) ≠ 3)) ∧ ((R0! NoncebasedSeg.Read.v12) ≠ 2)))
+    (hseg : (R0! NoncebasedSeg.Read.v22) = (segN : Int))
+    (hlast : (R0! NoncebasedSeg.Read.v21) = last)
+    (hldd : (R0! NoncebasedSeg.Read.v20) = ld')
+    (hct1 : (R0! NoncebasedSeg.Read.v10) = ct1) (hsegle : segN ≤ ct1.length)
+    (hrr : (R0! NoncebasedSeg.Read.v13) = src') :
     (R0! NoncebasedSeg.Read) =
       if cnt ≥ 4294967295 then (((0 : Nat) : Int), [], ld', ct1, cnt, src', (cpos : Int), p, ((0 : Nat) : Int), 1)
       else match C.dec cnt last (ct1.take segN) with
@@ -378,44 +378,44 @@ theorem rd_tail (last ld' : Bool) (segN : Nat) (ct1 src' : Bytes)
             (if last = true then ct1 else setAt ct1 0 (getAt ct1 (segN : Int))), cnt + 1, src',
             (((if last = true then cpos else 1) : Nat) : Int),
             x.take p.length ++ p.drop (x.take p.length).length, (((x.take p.length).length : Nat) : Int), 0) := by
-  have hsegnn : ¬ ((R0! NoncebasedSeg.Read.segment_4) < 0) := by rw [hseg]; omega
-  have hpt0 : (R0! NoncebasedSeg.Read.r_plaintext) = [] := by
-    simp [NoncebasedSeg.Read.r_plaintext, slice]
-  have hopt : (R0! NoncebasedSeg.Read.opt_generateSegmentNonce)
+  have hsegnn : ¬ ((R0! NoncebasedSeg.Read.v22) < 0) := by rw [hseg]; omega
+  have hpt0 : (R0! NoncebasedSeg.Read.v4) = [] := by
+    simp [NoncebasedSeg.Read.v4, slice]
+  have hopt : (R0! NoncebasedSeg.Read.v23)
       = NoncebasedSeg.generateSegmentNonce (nonceSize : Int) pre cnt last := by
-    simp only [NoncebasedSeg.Read.opt_generateSegmentNonce, hlast]
+    simp only [NoncebasedSeg.Read.v23, hlast]
   by_cases hi : cnt ≥ 4294967295
-  · have herr2 : (R0! NoncebasedSeg.Read.err_2) = 1 := by
-      simp [NoncebasedSeg.Read.err_2, hopt, seg_generateSegmentNonce_limit _ _ _ _ hi]
+  · have herr2 : (R0! NoncebasedSeg.Read.v25) = 1 := by
+      simp [NoncebasedSeg.Read.v25, hopt, seg_generateSegmentNonce_limit _ _ _ _ hi]
     simp only [NoncebasedSeg.Read, hnb, ↓reduceIte, Bool.false_eq_true, herr, hsegnn, herr2, hi,
-      NoncebasedSeg.Read.r_plaintextPos_2, hpt0, hldd, hct1, hrr]
+      NoncebasedSeg.Read.v5, hpt0, hldd, hct1, hrr]
     simp
   · obtain ⟨nonce, hnonce⟩ := segmentNonce_some nonceSize pre cnt last (by omega)
-    have hopt' : (R0! NoncebasedSeg.Read.opt_generateSegmentNonce) = some nonce := by
+    have hopt' : (R0! NoncebasedSeg.Read.v23) = some nonce := by
       rw [hopt, seg_generateSegmentNonce_eq _ _ _ _ hsize hmax, hnonce]
-    have herr2 : (R0! NoncebasedSeg.Read.err_2) = 0 := by
-      simp [NoncebasedSeg.Read.err_2, hopt']
+    have herr2 : (R0! NoncebasedSeg.Read.v25) = 0 := by
+      simp [NoncebasedSeg.Read.v25, hopt']
     have hsl : slice ct1 0 (segN : Int) = ct1.take segN := slice_prefix ct1 segN hsegle
-    have hp4 : (R0! NoncebasedSeg.Read.r_plaintext_4) = (decRes (C.dec cnt last (ct1.take segN))).1 := by
-      simp only [NoncebasedSeg.Read.r_plaintext_4, NoncebasedSeg.Read.r_plaintext_2, NoncebasedSeg.Read.r_plaintext_3,
-        NoncebasedSeg.Read.res_DecryptSegmentWithDst, NoncebasedSeg.Read.res_DecryptSegment, NoncebasedSeg.Read.nonce,
+    have hp4 : (R0! NoncebasedSeg.Read.v32) = (decRes (C.dec cnt last (ct1.take segN))).1 := by
+      simp only [NoncebasedSeg.Read.v32, NoncebasedSeg.Read.v27, NoncebasedSeg.Read.v30,
+        NoncebasedSeg.Read.v26, NoncebasedSeg.Read.v29, NoncebasedSeg.Read.v24,
         hopt', Option.getD_some, hct1, hseg, hsl, hD.dec _ _ _ _ hnonce, hD.decDst _ _ _ _ _ hnonce]
       cases useDst <;> simp
-    have herr5 : (R0! NoncebasedSeg.Read.err_5) = (decRes (C.dec cnt last (ct1.take segN))).2 := by
-      simp only [NoncebasedSeg.Read.err_5, NoncebasedSeg.Read.err_3, NoncebasedSeg.Read.err_4,
-        NoncebasedSeg.Read.res_DecryptSegmentWithDst, NoncebasedSeg.Read.res_DecryptSegment, NoncebasedSeg.Read.nonce,
+    have herr5 : (R0! NoncebasedSeg.Read.v33) = (decRes (C.dec cnt last (ct1.take segN))).2 := by
+      simp only [NoncebasedSeg.Read.v33, NoncebasedSeg.Read.v28, NoncebasedSeg.Read.v31,
+        NoncebasedSeg.Read.v26, NoncebasedSeg.Read.v29, NoncebasedSeg.Read.v24,
         hopt', Option.getD_some, hct1, hseg, hsl, hD.dec _ _ _ _ hnonce, hD.decDst _ _ _ _ _ hnonce]
       cases useDst <;> simp
     have hcw : (cnt + 1) % 18446744073709551616 = cnt + 1 := Nat.mod_eq_of_lt (by omega)
     simp only [NoncebasedSeg.Read, hnb, ↓reduceIte, Bool.false_eq_true, herr, hsegnn, herr2, hi,
-      NoncebasedSeg.Read.r_plaintextPos_2, hldd, hct1, hrr, herr5, hp4, ne_eq, not_true_eq_false]
+      NoncebasedSeg.Read.v5, hldd, hct1, hrr, herr5, hp4, ne_eq, not_true_eq_false]
     cases hdec : C.dec cnt last (ct1.take segN) with
     | none => simp [decRes]
     | some x =>
-      simp only [decRes, not_true_eq_false, ↓reduceIte, NoncebasedSeg.Read.r_plaintextPos_3, NoncebasedSeg.Read.n_3,
-        hp4, hdec, NoncebasedSeg.Read.r_ciphertext_3, NoncebasedSeg.Read.r_ciphertext_2, hlast, hct1,
-        NoncebasedSeg.Read.remainderOffset, hseg, NoncebasedSeg.Read.r_decryptedSegmentCnt, hcw,
-        NoncebasedSeg.Read.r_ciphertextPos_2, NoncebasedSeg.Read.r_ciphertextPos, NoncebasedSeg.Read.p_2, copy_out,
+      simp only [decRes, not_true_eq_false, ↓reduceIte, NoncebasedSeg.Read.v42, NoncebasedSeg.Read.v41,
+        hp4, hdec, NoncebasedSeg.Read.v37, NoncebasedSeg.Read.v35, hlast, hct1,
+        NoncebasedSeg.Read.v34, hseg, NoncebasedSeg.Read.v39, hcw,
+        NoncebasedSeg.Read.v38, NoncebasedSeg.Read.v36, NoncebasedSeg.Read.v40, copy_out,
         len_eq, min_len_cast]
       cases last <;> simp [List.length_take]
 
@@ -437,45 +437,45 @@ theorem seg_Read_fetch (carry : Option UInt8)
   obtain ⟨lim, hlimdef⟩ : ∃ lim, lim = P.ptSeg + P.overhead + 1 - (if cnt = 0 then P.off else 0) := ⟨_, rfl⟩
   have hlim1 : 1 ≤ lim := by rw [hlimdef]; split <;> omega
   have hlimL : lim ≤ ct.length := by rw [hlimdef, h3]; omega
-  have hlim : (R0! NoncebasedSeg.Read.ctLim_3) = (lim : Int) := by
-    simp only [NoncebasedSeg.Read.ctLim_3, NoncebasedSeg.Read.ctLim_2, NoncebasedSeg.Read.ctLim, len_eq, h3]
+  have hlim : (R0! NoncebasedSeg.Read.v8) = (lim : Int) := by
+    simp only [NoncebasedSeg.Read.v8, NoncebasedSeg.Read.v7, NoncebasedSeg.Read.v6, len_eq, h3]
     by_cases hc : cnt = 0
     · simp only [hc, ↓reduceIte] at hlimdef ⊢
       rw [i64_eq (by omega) (by omega)]; omega
     · simp only [hc, ↓reduceIte] at hlimdef ⊢
       omega
-  have hrf : (R0! NoncebasedSeg.Read.ext_readFull) = (src.take (lim - cpos),
+  have hrf : (R0! NoncebasedSeg.Read.v9) = (src.take (lim - cpos),
       (if lim - cpos ≤ src.length then 0 else if errAtEnd then 7 else if src = [] then 2 else 3),
       src.drop (lim - cpos)) := by
-    simp only [NoncebasedSeg.Read.ext_readFull, hlim, mReadFull]
+    simp only [NoncebasedSeg.Read.v9, hlim, mReadFull]
     have : ((lim : Int) - (cpos : Int)).toNat = lim - cpos := by omega
     rw [this]
   have hchle : (src.take (lim - cpos)).length ≤ lim - cpos := by rw [List.length_take]; omega
-  have hct1 : (R0! NoncebasedSeg.Read.r_ciphertext)
+  have hct1 : (R0! NoncebasedSeg.Read.v10)
       = Stream.carryBytes carry ++ src.take (lim - cpos) ++ ct.drop (cpos + (src.take (lim - cpos)).length) := by
-    simp only [NoncebasedSeg.Read.r_ciphertext, hlim, hrf]
+    simp only [NoncebasedSeg.Read.v10, hlim, hrf]
     rw [copyInto_nat ct _ cpos lim (by omega) hlimL, Nat.min_eq_right hchle, h5,
       List.take_of_length_le (Nat.le_refl _)]
   obtain ⟨hc1len, hc1take, hc1all⟩ := ct1_facts (Stream.carryBytes carry) (src.take (lim - cpos)) ct cpos h4 (by omega)
-  have hn2 : (R0! NoncebasedSeg.Read.n_2) = (((src.take (lim - cpos)).length : Nat) : Int) := by
-    simp only [NoncebasedSeg.Read.n_2, hrf, len_eq]
-  have hrr : (R0! NoncebasedSeg.Read.r_r) = src.drop (lim - cpos) := by
-    simp only [NoncebasedSeg.Read.r_r, hrf]
-  have hpt0 : (R0! NoncebasedSeg.Read.r_plaintext) = [] := by
-    simp [NoncebasedSeg.Read.r_plaintext, slice]
+  have hn2 : (R0! NoncebasedSeg.Read.v11) = (((src.take (lim - cpos)).length : Nat) : Int) := by
+    simp only [NoncebasedSeg.Read.v11, hrf, len_eq]
+  have hrr : (R0! NoncebasedSeg.Read.v13) = src.drop (lim - cpos) := by
+    simp only [NoncebasedSeg.Read.v13, hrf]
+  have hpt0 : (R0! NoncebasedSeg.Read.v4) = [] := by
+    simp [NoncebasedSeg.Read.v4, slice]
   by_cases hfull : lim - cpos ≤ src.length
   · -- io.ReadFull filled the window: a non-final segment plus the look-ahead byte
     have hchlen : (src.take (lim - cpos)).length = lim - cpos := by rw [List.length_take]; omega
-    have herrv : (R0! NoncebasedSeg.Read.err) = 0 := by
-      simp only [NoncebasedSeg.Read.err, hrf, hfull, ↓reduceIte]
-    have hseg : (R0! NoncebasedSeg.Read.segment_4) = ((lim - 1 : Nat) : Int) := by
-      simp only [NoncebasedSeg.Read.segment_4, herrv, ne_eq, not_true_eq_false, ↓reduceIte,
-        NoncebasedSeg.Read.segment_3, hn2, hchlen]
+    have herrv : (R0! NoncebasedSeg.Read.v12) = 0 := by
+      simp only [NoncebasedSeg.Read.v12, hrf, hfull, ↓reduceIte]
+    have hseg : (R0! NoncebasedSeg.Read.v22) = ((lim - 1 : Nat) : Int) := by
+      simp only [NoncebasedSeg.Read.v22, herrv, ne_eq, not_true_eq_false, ↓reduceIte,
+        NoncebasedSeg.Read.v19, hn2, hchlen]
       exact seg3_arith cpos (lim - cpos) lim (by omega) hlim1 (by omega)
-    have hlast : (R0! NoncebasedSeg.Read.lastSegment_3) = false := by
-      simp [NoncebasedSeg.Read.lastSegment_3, herrv, NoncebasedSeg.Read.lastSegment]
-    have hldd : (R0! NoncebasedSeg.Read.r_lastSegmentDecrypted_2) = false := by
-      simp [NoncebasedSeg.Read.r_lastSegmentDecrypted_2, herrv]
+    have hlast : (R0! NoncebasedSeg.Read.v21) = false := by
+      simp [NoncebasedSeg.Read.v21, herrv, NoncebasedSeg.Read.v14]
+    have hldd : (R0! NoncebasedSeg.Read.v20) = false := by
+      simp [NoncebasedSeg.Read.v20, herrv]
     have T := rd_tail P C errAtEnd dec decDst nonceSize pre useDst ppos pt ct cnt cpos p src false false (lim - 1) _ _
       hD hsize hmax hnb (by simp [herrv]) hseg hlast hldd hct1 (by omega) hrr
     rw [T]
@@ -522,8 +522,8 @@ theorem seg_Read_fetch (carry : Option UInt8)
         ≠ P.ptSeg + P.overhead + 1 - (if cnt = 0 then P.off else 0) - (Stream.carryBytes carry).length := by
       rw [← hlimdef, ← h4, hsrc]; omega
     by_cases he : errAtEnd = true
-    · have herrv : (R0! NoncebasedSeg.Read.err) = 7 := by
-        simp only [NoncebasedSeg.Read.err, hrf]
+    · have herrv : (R0! NoncebasedSeg.Read.v12) = 7 := by
+        simp only [NoncebasedSeg.Read.v12, hrf]
         simp only [hfull, he, ↓reduceIte]
       have hM : Stream.read P C errAtEnd ⟨[], cnt, carry, false, src⟩ p.length
           = (⟨[], cnt, carry, false, []⟩, .err .io) := by
@@ -531,26 +531,26 @@ theorem seg_Read_fetch (carry : Option UInt8)
         rw [← hlimdef, ← h4, hsrcd]
       have hR : (R0! NoncebasedSeg.Read) = (((0 : Nat) : Int), [], false,
           Stream.carryBytes carry ++ src ++ ct.drop (cpos + src.length), cnt, [], (cpos : Int), p, ((0 : Nat) : Int), 7) := by
-        simp only [NoncebasedSeg.Read, hnb, ↓reduceIte, Bool.false_eq_true, herrv, NoncebasedSeg.Read.r_plaintextPos_2,
+        simp only [NoncebasedSeg.Read, hnb, ↓reduceIte, Bool.false_eq_true, herrv, NoncebasedSeg.Read.v5,
           hpt0, hct1, hrr]
         simp
       rw [hM, hR]
       exact ReadTied.intro P _ _ p 0 [] _ cpos p 0 7 ⟨Nat.le_refl _, rfl, by rw [hc1len]; exact h3, h4, hc1take⟩
         ⟨rfl, rfl, rfl⟩
     · have he' : errAtEnd = false := by cases errAtEnd <;> simp_all
-      have herrv : (R0! NoncebasedSeg.Read.err) = 2 ∨ (R0! NoncebasedSeg.Read.err) = 3 := by
-        simp only [NoncebasedSeg.Read.err, hrf]
+      have herrv : (R0! NoncebasedSeg.Read.v12) = 2 ∨ (R0! NoncebasedSeg.Read.v12) = 3 := by
+        simp only [NoncebasedSeg.Read.v12, hrf]
         simp only [hfull, he', ↓reduceIte, Bool.false_eq_true]
         by_cases hs : src = [] <;> simp [hs]
-      have herrne : (R0! NoncebasedSeg.Read.err) ≠ 0 := by rcases herrv with h | h <;> rw [h] <;> decide
-      have hseg : (R0! NoncebasedSeg.Read.segment_4) = ((cpos + src.length : Nat) : Int) := by
-        simp only [NoncebasedSeg.Read.segment_4, herrne, ne_eq, not_false_eq_true, ↓reduceIte,
-          NoncebasedSeg.Read.segment_2, hn2]
+      have herrne : (R0! NoncebasedSeg.Read.v12) ≠ 0 := by rcases herrv with h | h <;> rw [h] <;> decide
+      have hseg : (R0! NoncebasedSeg.Read.v22) = ((cpos + src.length : Nat) : Int) := by
+        simp only [NoncebasedSeg.Read.v22, herrne, ne_eq, not_false_eq_true, ↓reduceIte,
+          NoncebasedSeg.Read.v18, hn2]
         rw [i64_eq (by omega) (by omega)]; omega
-      have hlast : (R0! NoncebasedSeg.Read.lastSegment_3) = true := by
-        simp [NoncebasedSeg.Read.lastSegment_3, herrne, NoncebasedSeg.Read.lastSegment_2]
-      have hldd : (R0! NoncebasedSeg.Read.r_lastSegmentDecrypted_2) = true := by
-        simp [NoncebasedSeg.Read.r_lastSegmentDecrypted_2, herrne, NoncebasedSeg.Read.r_lastSegmentDecrypted]
+      have hlast : (R0! NoncebasedSeg.Read.v21) = true := by
+        simp [NoncebasedSeg.Read.v21, herrne, NoncebasedSeg.Read.v16]
+      have hldd : (R0! NoncebasedSeg.Read.v20) = true := by
+        simp [NoncebasedSeg.Read.v20, herrne, NoncebasedSeg.Read.v17]
       have T := rd_tail P C errAtEnd dec decDst nonceSize pre useDst ppos pt ct cnt cpos p src true true (cpos + src.length) _ _
         hD hsize hmax hnb (by rcases herrv with h | h <;> simp [h]) hseg hlast hldd hct1 (by omega) hrr
       rw [T, hc1all]
@@ -602,29 +602,29 @@ theorem seg_Read_too_short (hoffL : P.off = P.ptSeg + P.overhead + 1)
     omega
   have hnb : ¬ ((ppos : Int) < len pt) := by simp only [len_eq]; omega
   constructor
-  · have hlim : NoncebasedSeg.Read.ctLim_3 Bytes (mReadFull errAtEnd) decDst dec (ppos : Int) pt false ct 0 (P.off : Int)
+  · have hlim : NoncebasedSeg.Read.v8 Bytes (mReadFull errAtEnd) decDst dec (ppos : Int) pt false ct 0 (P.off : Int)
         (0 : Int) (nonceSize : Int) pre useDst p src = 0 := by
-      simp only [NoncebasedSeg.Read.ctLim_3, NoncebasedSeg.Read.ctLim_2, NoncebasedSeg.Read.ctLim, len_eq, h3, hoffL,
+      simp only [NoncebasedSeg.Read.v8, NoncebasedSeg.Read.v7, NoncebasedSeg.Read.v6, len_eq, h3, hoffL,
         ↓reduceIte]
       rw [i64_eq (by omega) (by omega)]; omega
-    have hrf : NoncebasedSeg.Read.ext_readFull Bytes (mReadFull errAtEnd) decDst dec (ppos : Int) pt false ct 0 (P.off : Int)
+    have hrf : NoncebasedSeg.Read.v9 Bytes (mReadFull errAtEnd) decDst dec (ppos : Int) pt false ct 0 (P.off : Int)
         (0 : Int) (nonceSize : Int) pre useDst p src = ([], 0, src) := by
-      simp only [NoncebasedSeg.Read.ext_readFull, hlim, mReadFull]
+      simp only [NoncebasedSeg.Read.v9, hlim, mReadFull]
       simp
-    have herrv : NoncebasedSeg.Read.err Bytes (mReadFull errAtEnd) decDst dec (ppos : Int) pt false ct 0 (P.off : Int)
+    have herrv : NoncebasedSeg.Read.v12 Bytes (mReadFull errAtEnd) decDst dec (ppos : Int) pt false ct 0 (P.off : Int)
         (0 : Int) (nonceSize : Int) pre useDst p src = 0 := by
-      simp only [NoncebasedSeg.Read.err, hrf]
-    have hseg : NoncebasedSeg.Read.segment_4 Bytes (mReadFull errAtEnd) decDst dec (ppos : Int) pt false ct 0 (P.off : Int)
+      simp only [NoncebasedSeg.Read.v12, hrf]
+    have hseg : NoncebasedSeg.Read.v22 Bytes (mReadFull errAtEnd) decDst dec (ppos : Int) pt false ct 0 (P.off : Int)
         (0 : Int) (nonceSize : Int) pre useDst p src = -1 := by
-      simp only [NoncebasedSeg.Read.segment_4, herrv, ne_eq, not_true_eq_false, ↓reduceIte, NoncebasedSeg.Read.segment_3,
-        NoncebasedSeg.Read.n_2, hrf]
+      simp only [NoncebasedSeg.Read.v22, herrv, ne_eq, not_true_eq_false, ↓reduceIte, NoncebasedSeg.Read.v19,
+        NoncebasedSeg.Read.v11, hrf]
       decide
-    have hct : NoncebasedSeg.Read.r_ciphertext Bytes (mReadFull errAtEnd) decDst dec (ppos : Int) pt false ct 0 (P.off : Int)
+    have hct : NoncebasedSeg.Read.v10 Bytes (mReadFull errAtEnd) decDst dec (ppos : Int) pt false ct 0 (P.off : Int)
         (0 : Int) (nonceSize : Int) pre useDst p src = ct := by
-      simp only [NoncebasedSeg.Read.r_ciphertext, hlim, hrf]
+      simp only [NoncebasedSeg.Read.v10, hlim, hrf]
       simp [copyInto]
-    simp only [NoncebasedSeg.Read, hnb, ↓reduceIte, Bool.false_eq_true, herrv, hseg, NoncebasedSeg.Read.r_plaintextPos_2,
-      NoncebasedSeg.Read.r_plaintext, NoncebasedSeg.Read.r_lastSegmentDecrypted_2, hct, NoncebasedSeg.Read.r_r, hrf]
+    simp only [NoncebasedSeg.Read, hnb, ↓reduceIte, Bool.false_eq_true, herrv, hseg, NoncebasedSeg.Read.v5,
+      NoncebasedSeg.Read.v4, NoncebasedSeg.Read.v20, hct, NoncebasedSeg.Read.v13, hrf]
     simp [slice]
   · simp only [Stream.read, ne_eq, not_true_eq_false, ↓reduceIte, Bool.false_eq_true, hoffL, Stream.carryBytes,
       Nat.sub_self, List.take_zero, List.length_nil, List.drop_zero, List.append_nil, List.dropLast_nil,
@@ -856,8 +856,8 @@ theorem seg_Write_step (pos : Nat) (ptb : Bytes) (cnt ppos : Nat) (ct : Bytes) (
   obtain ⟨s1, hs1⟩ : ∃ s1 : Int × Bytes × Nat × Int × Bytes × (List Bytes × Nat),
       s1 = ((pos : Int), ptb, cnt, (ppos : Int), ct, (l, calls)) := ⟨_, rfl⟩
   rw [← hs1]
-  have hlim3 : (W! NoncebasedSeg.Write.loop1.ptLim_3) s1 = (lim : Int) := by
-    simp only [NoncebasedSeg.Write.loop1.ptLim_3, NoncebasedSeg.Write.loop1.ptLim_2, NoncebasedSeg.Write.loop1.ptLim,
+  have hlim3 : (W! NoncebasedSeg.Write.loop1.v4) s1 = (lim : Int) := by
+    simp only [NoncebasedSeg.Write.loop1.v4, NoncebasedSeg.Write.loop1.v3, NoncebasedSeg.Write.loop1.v2,
       len_eq, hs1, hlen]
     rw [hlimdef, Stream.lim]
     by_cases hc : cnt = 0
@@ -868,20 +868,20 @@ theorem seg_Write_step (pos : Nat) (ptb : Bytes) (cnt ppos : Nat) (ct : Bytes) (
     have := slice_suffix p pos hpos
     rw [len_eq] at this; exact this
   have hdl : (p.drop pos).length = p.length - pos := List.length_drop
-  have hn : (W! NoncebasedSeg.Write.loop1.n) s1 = (k : Int) := by
-    simp only [NoncebasedSeg.Write.loop1.n, hlim3, len_eq]
+  have hn : (W! NoncebasedSeg.Write.loop1.v6) s1 = (k : Int) := by
+    simp only [NoncebasedSeg.Write.loop1.v6, hlim3, len_eq]
     simp only [hs1, hslp, hdl]
     omega
-  have hbuf : (W! NoncebasedSeg.Write.loop1.w_plaintext) s1 = wBuf ptb ppos k pos p := by
-    simp only [NoncebasedSeg.Write.loop1.w_plaintext, hlim3, len_eq]
+  have hbuf : (W! NoncebasedSeg.Write.loop1.v5) s1 = wBuf ptb ppos k pos p := by
+    simp only [NoncebasedSeg.Write.loop1.v5, hlim3, len_eq]
     simp only [hs1, hslp]
     rw [copyInto_nat ptb _ ppos lim hppos (by omega), hdl, ← hkdef, wBuf]
-  have hppos' : (W! NoncebasedSeg.Write.loop1.w_plaintextPos) s1 = ((ppos + k : Nat) : Int) := by
-    simp only [NoncebasedSeg.Write.loop1.w_plaintextPos, hn]
+  have hppos' : (W! NoncebasedSeg.Write.loop1.v7) s1 = ((ppos + k : Nat) : Int) := by
+    simp only [NoncebasedSeg.Write.loop1.v7, hn]
     simp only [hs1]
     rw [i64_eq (by omega) (by omega)]; omega
-  have hpos2 : (W! NoncebasedSeg.Write.loop1.pos_2) s1 = ((pos + k : Nat) : Int) := by
-    simp only [NoncebasedSeg.Write.loop1.pos_2, hn]
+  have hpos2 : (W! NoncebasedSeg.Write.loop1.v8) s1 = ((pos + k : Nat) : Int) := by
+    simp only [NoncebasedSeg.Write.loop1.v8, hn]
     simp only [hs1]
     rw [i64_eq (by omega) (by omega)]; omega
   have hcnt : s1.2.2.1 = cnt := by rw [hs1]
@@ -892,38 +892,38 @@ theorem seg_Write_step (pos : Nat) (ptb : Bytes) (cnt ppos : Nat) (ct : Bytes) (
   by_cases hbrk : pos + k = p.length
   · simp only [hbrk, ↓reduceIte]
   · simp only [hbrk, ↓reduceIte]
-    have hopt : (W! NoncebasedSeg.Write.loop1.opt_generateSegmentNonce) s1
+    have hopt : (W! NoncebasedSeg.Write.loop1.v9) s1
         = NoncebasedSeg.generateSegmentNonce (nonceSize : Int) pre cnt false := by
-      simp only [NoncebasedSeg.Write.loop1.opt_generateSegmentNonce, hcnt]
+      simp only [NoncebasedSeg.Write.loop1.v9, hcnt]
     by_cases hi : cnt ≥ 4294967295
-    · have herr : (W! NoncebasedSeg.Write.loop1.err) s1 = 1 := by
-        simp [NoncebasedSeg.Write.loop1.err, hopt, seg_generateSegmentNonce_limit _ _ _ _ hi]
+    · have herr : (W! NoncebasedSeg.Write.loop1.v11) s1 = 1 := by
+        simp [NoncebasedSeg.Write.loop1.v11, hopt, seg_generateSegmentNonce_limit _ _ _ _ hi]
       simp [herr, hi]
     · obtain ⟨nonce, hnonce⟩ := segmentNonce_some nonceSize pre cnt false (by omega)
-      have hopt' : (W! NoncebasedSeg.Write.loop1.opt_generateSegmentNonce) s1 = some nonce := by
+      have hopt' : (W! NoncebasedSeg.Write.loop1.v9) s1 = some nonce := by
         rw [hopt, seg_generateSegmentNonce_eq _ _ _ _ hsize hmax, hnonce]
-      have herr : (W! NoncebasedSeg.Write.loop1.err) s1 = 0 := by
-        simp [NoncebasedSeg.Write.loop1.err, hopt']
+      have herr : (W! NoncebasedSeg.Write.loop1.v11) s1 = 0 := by
+        simp [NoncebasedSeg.Write.loop1.v11, hopt']
       have hbl : (wBuf ptb ppos k pos p).length = ptb.length := by
         simp only [wBuf, List.length_append, List.length_take, List.length_drop, hdl]; omega
       have hsl : slice (wBuf ptb ppos k pos p) 0 (lim : Int) = (wBuf ptb ppos k pos p).take lim :=
         slice_prefix _ lim (by omega)
-      have hct3 : (W! NoncebasedSeg.Write.loop1.w_ciphertext_3) s1 = C.enc cnt false ((wBuf ptb ppos k pos p).take lim) := by
-        simp only [NoncebasedSeg.Write.loop1.w_ciphertext_3, NoncebasedSeg.Write.loop1.w_ciphertext,
-          NoncebasedSeg.Write.loop1.w_ciphertext_2, NoncebasedSeg.Write.loop1.res_EncryptSegmentWithDst,
-          NoncebasedSeg.Write.loop1.res_EncryptSegment, NoncebasedSeg.Write.loop1.nonce, hopt', Option.getD_some,
+      have hct3 : (W! NoncebasedSeg.Write.loop1.v18) s1 = C.enc cnt false ((wBuf ptb ppos k pos p).take lim) := by
+        simp only [NoncebasedSeg.Write.loop1.v18, NoncebasedSeg.Write.loop1.v13,
+          NoncebasedSeg.Write.loop1.v16, NoncebasedSeg.Write.loop1.v12,
+          NoncebasedSeg.Write.loop1.v15, NoncebasedSeg.Write.loop1.v10, hopt', Option.getD_some,
           hbuf, hlim3, hsl, hC.enc _ _ _ _ hnonce, hC.encDst _ _ _ _ _ hnonce]
         cases useDst <;> simp
-      have herr4 : (W! NoncebasedSeg.Write.loop1.err_4) s1 = 0 := by
-        simp only [NoncebasedSeg.Write.loop1.err_4, NoncebasedSeg.Write.loop1.err_2,
-          NoncebasedSeg.Write.loop1.err_3, NoncebasedSeg.Write.loop1.res_EncryptSegmentWithDst,
-          NoncebasedSeg.Write.loop1.res_EncryptSegment, NoncebasedSeg.Write.loop1.nonce, hopt', Option.getD_some,
+      have herr4 : (W! NoncebasedSeg.Write.loop1.v19) s1 = 0 := by
+        simp only [NoncebasedSeg.Write.loop1.v19, NoncebasedSeg.Write.loop1.v14,
+          NoncebasedSeg.Write.loop1.v17, NoncebasedSeg.Write.loop1.v12,
+          NoncebasedSeg.Write.loop1.v15, NoncebasedSeg.Write.loop1.v10, hopt', Option.getD_some,
           hbuf, hlim3, hsl, hC.enc _ _ _ _ hnonce, hC.encDst _ _ _ _ _ hnonce]
         cases useDst <;> simp
       have hcw : (cnt + 1) % 18446744073709551616 = cnt + 1 := Nat.mod_eq_of_lt (by omega)
-      simp only [herr, herr4, hi, ↓reduceIte, ne_eq, not_true_eq_false, NoncebasedSeg.Write.loop1.err_5,
-        NoncebasedSeg.Write.loop1.w_w, NoncebasedSeg.Write.loop1.ext_sink, hct3, hw, mSink,
-        NoncebasedSeg.Write.loop1.w_encryptedSegmentCnt, NoncebasedSeg.Write.loop1.w_plaintextPos_2, hcnt, hcw]
+      simp only [herr, herr4, hi, ↓reduceIte, ne_eq, not_true_eq_false, NoncebasedSeg.Write.loop1.v21,
+        NoncebasedSeg.Write.loop1.v22, NoncebasedSeg.Write.loop1.v20, hct3, hw, mSink,
+        NoncebasedSeg.Write.loop1.v24, NoncebasedSeg.Write.loop1.v23, hcnt, hcw]
       by_cases hf : Stream.sinkFails f calls = true
       · simp [hf]
       · simp [hf]
@@ -1039,10 +1039,10 @@ theorem seg_Write_eq (P : Stream.Params) (C : Stream.Cipher) (f : Stream.Fault) 
         = loopResult (whileSteps fuel (((0 : Nat) : Int), ptb, cnt, (ppos : Int), ct, (l, calls))
           (fun s1 => NoncebasedSeg.Write.loop1.body (List Bytes × Nat) (mSink f) fuel encDst enc false ptb cnt (P.off : Int)
             (ppos : Int) (nonceSize : Int) pre useDst ct p (l, calls) s1)) := by
-      simp only [NoncebasedSeg.Write, Bool.false_eq_true, ↓reduceIte, NoncebasedSeg.Write.w_plaintext_2,
-        NoncebasedSeg.Write.w_encryptedSegmentCnt_2, NoncebasedSeg.Write.w_plaintextPos_3,
-        NoncebasedSeg.Write.w_ciphertext_4, NoncebasedSeg.Write.w_w_2, NoncebasedSeg.Write.pos_3,
-        NoncebasedSeg.Write.loop1, NoncebasedSeg.Write.pos, loopResult, Int.natCast_zero]
+      simp only [NoncebasedSeg.Write, Bool.false_eq_true, ↓reduceIte, NoncebasedSeg.Write.v26,
+        NoncebasedSeg.Write.v27, NoncebasedSeg.Write.v28,
+        NoncebasedSeg.Write.v29, NoncebasedSeg.Write.v30, NoncebasedSeg.Write.v25,
+        NoncebasedSeg.Write.loop1, NoncebasedSeg.Write.v1, loopResult, Int.natCast_zero]
       rfl
     rw [hW]
     have hM : Stream.write P C f (wAbs ptb ppos cnt false (l, calls)) p
